@@ -2303,7 +2303,7 @@ static int _ov_initprime(OggVorbis_File *vf){
 /* grab enough data for lapping from vf; this may be in the form of
    unreturned, already-decoded pcm, remaining PCM we will need to
    decode, or synthetic postextrapolation from last packets. */
-static void _ov_getlap(OggVorbis_File *vf,vorbis_info *vi,vorbis_dsp_state *vd,
+static int _ov_getlap(OggVorbis_File *vf,vorbis_info *vi,vorbis_dsp_state *vd,
                        float **lappcm,int lapsize){
   int lapcount=0,i;
   float **pcm;
@@ -2320,7 +2320,8 @@ static void _ov_getlap(OggVorbis_File *vf,vorbis_info *vi,vorbis_dsp_state *vd,
     }else{
     /* suck in another packet */
       int ret=_fetch_and_process_packet(vf,NULL,1,0); /* do *not* span */
-      if(ret==OV_EOF || ret==OV_EREAD)break;
+      if(ret==OV_EREAD)return(OV_EREAD);
+      if(ret==OV_EOF)break;
     }
   }
   if(lapcount<lapsize){
@@ -2339,6 +2340,7 @@ static void _ov_getlap(OggVorbis_File *vf,vorbis_info *vi,vorbis_dsp_state *vd,
       lapcount+=samples;
     }
   }
+  return(0);
 }
 
 /* this sets up crosslapping of a sample by using trailing data from
@@ -2377,7 +2379,8 @@ int ov_crosslap(OggVorbis_File *vf1, OggVorbis_File *vf2){
   for(i=0;i<vi1->channels;i++)
     lappcm[i]=alloca(sizeof(**lappcm)*n1);
 
-  _ov_getlap(vf1,vi1,&vf1->vd,lappcm,n1);
+  ret=_ov_getlap(vf1,vi1,&vf1->vd,lappcm,n1);
+  if(ret)return(ret);
 
   /* have a lapping buffer from vf1; now to splice it into the lapping
      buffer of vf2 */
@@ -2421,7 +2424,8 @@ static int _ov_64_seek_lap(OggVorbis_File *vf,ogg_int64_t pos,
   lappcm=alloca(sizeof(*lappcm)*ch1);
   for(i=0;i<ch1;i++)
     lappcm[i]=alloca(sizeof(**lappcm)*n1);
-  _ov_getlap(vf,vi,&vf->vd,lappcm,n1);
+  ret=_ov_getlap(vf,vi,&vf->vd,lappcm,n1);
+  if(ret)return(ret);
 
   /* have lapping data; seek and prime the buffer */
   ret=localseek(vf,pos);
@@ -2482,7 +2486,8 @@ static int _ov_d_seek_lap(OggVorbis_File *vf,double pos,
   lappcm=alloca(sizeof(*lappcm)*ch1);
   for(i=0;i<ch1;i++)
     lappcm[i]=alloca(sizeof(**lappcm)*n1);
-  _ov_getlap(vf,vi,&vf->vd,lappcm,n1);
+  ret=_ov_getlap(vf,vi,&vf->vd,lappcm,n1);
+  if(ret)return(ret);
 
   /* have lapping data; seek and prime the buffer */
   ret=localseek(vf,pos);
